@@ -1,5 +1,6 @@
 import PydraModel.Typing.NoConfusion
 import PydraModel.Typing.Idem
+import PydraModel.Typing.IdemU
 /-
 C20 — Accepted field values conform to the declared type.
 
@@ -121,6 +122,27 @@ example : coerce (cfgOf true) (.gen .dict [.cls .str, .gen .set [.cls .float]])
     (.map .dict [.atom .str (.str "k".toList)] [.seq .list [.atom .int (.int 1), .atom .bool (.int 1), .atom .int (.int 2)]])
     = .ok (.map .dict [.atom .str (.str "k".toList)] [.seq .set [.atom .float (.int 1), .atom .float (.int 2)]]) := by
   with_unfolding_all rfl
+
+/-- PARTIAL, whole grammar including `Union` / `Optional`: under the exclusions of clause 1 and the decidable
+    hypothesis `d13u sac t v = false` — every Union node met by the value is *stable*: the first alternative that
+    accepts the value yields `y`, and each earlier alternative rejects `y` with a TypeError or returns `y` itself —
+    the stored value is a fixpoint of the coercion.  `d13u` is exactly the match rule of finding D13u. -/
+theorem C20_idem_partial_stableUnions (sac : Bool) (t : Ty) (v v' : V) (hw : t.wf = true)
+    (hu : d13u sac t v = false) (h13 : d13 t v = false) (hb : bytesAtGen t v = false)
+    (h : coerce (cfgOf sac) t v = .ok v') : coerce (cfgOf sac) t v' = .ok v' :=
+  coerce_idemU sac t v v' hw hu h13 hb h
+
+/-- non-vacuity: a nested Optional / Union whose nodes are stable for the value, and a real coercion -/
+example : d13u true (.gen .list [.union [.gen .tuple [.cls .float, .cls .Path], .cls .NoneType]])
+    (.seq .tuple [.seq .list [.atom .int (.int 1), .atom .str (.str "a".toList)], .atom .NoneType .unit]) = false := by
+  decide +kernel
+example : coerce (cfgOf true) (.gen .list [.union [.gen .tuple [.cls .float, .cls .Path], .cls .NoneType]])
+    (.seq .tuple [.seq .list [.atom .int (.int 1), .atom .str (.str "a".toList)], .atom .NoneType .unit])
+    = .ok (.seq .list [.seq .tuple [.atom .float (.int 1), .atom .PosixPath (.str "a".toList)], .atom .NoneType .unit]) := by
+  with_unfolding_all rfl
+/-- the D13u witness is outside the hypothesis -/
+example : d13u false (.union [.cls .frozenset, .cls .tuple]) (.seq .set [.atom .int (.int 1), .atom .int (.int 2)]) = true := by
+  decide +kernel
 
 /-! ## The table-level reason (re-proved over the regenerated tables on every run) -/
 
